@@ -45,7 +45,7 @@ Lemma sarif_shape q ver vs :
                                   ("informationUri", JStr "https://github.com/be-wise-be-kind/thai-lint");
                                   ("rules", JArr (map rule_json (first_occ [] vs)))])]);
                              ("results", JArr (map (result_json q) vs))]])].
-Proof. destruct q as [[] b c d e f]; reflexivity. Qed.
+Proof. destruct q as [[] b c d e f g]; reflexivity. Qed.
 
 (* ---------- generic ---------- *)
 Lemma all_some_map {A B} (f : A -> option B) (g : A -> B) l :
@@ -82,7 +82,7 @@ Proof.
 Qed.
 
 Lemma sarif_core_ideal q v : q_sarif_unsanitized q = false -> sarif_core q v = san_core v.
-Proof. destruct q as [a b c d e f]. cbn [q_sarif_unsanitized]. intros ->. reflexivity. Qed.
+Proof. destruct q as [a b c d e f g]. cbn [q_sarif_unsanitized]. intros ->. reflexivity. Qed.
 
 (* a string the sanitiser leaves alone (valid UTF-8: no undecodable byte) *)
 Definition clean (s : string) : Prop := sanitize s = s.
@@ -91,7 +91,7 @@ Definition viol_clean (v : viol) : Prop := clean (v_file v) /\ clean (v_msg v).
 (* Gen fact (source as repaired by d9a5951): the SARIF templates pass path and message through the sanitiser themselves,
    so the document shows the same strings as JSON / text for EVERY quirk vector, the faithful one included *)
 Lemma sarif_core_source q v : sarif_core q v = san_core v.
-Proof. destruct q as [[] b c d e f]; reflexivity. Qed.
+Proof. destruct q as [[] b c d e f g]; reflexivity. Qed.
 
 Theorem sarif_roundtrip_exact q ver vs :
   decode_sarif (render_sarif q ver vs) = Some (map san_core vs).
@@ -99,7 +99,7 @@ Proof. rewrite sarif_roundtrip. f_equal. apply map_ext. intro. apply sarif_core_
 
 Lemma sarif_core_clean q v : viol_clean v -> sarif_core q v = san_core v.
 Proof.
-  intros [Hf Hm]. unfold clean in Hf, Hm. destruct q as [[] b c d e f]; unfold sarif_core, suri, smsg, san_core; cbn;
+  intros [Hf Hm]. unfold clean in Hf, Hm. destruct q as [[] b c d e f g]; unfold sarif_core, suri, smsg, san_core; cbn;
     now rewrite ?Hf, ?Hm.
 Qed.
 
